@@ -267,7 +267,7 @@ def parse_results(js, logf, tdir, harnesses):
         if not checks:
             if "timed out" in hlog.lower() or "timeout" in hlog.lower() or "CBMC timed out" in logtxt:
                 status = "timeout"
-            elif "out of memory" in hlog.lower() or "bad_alloc" in hlog or "SIGKILL" in hlog or "std::bad_alloc" in logtxt:
+            elif "CBMC failed with status 6" in hlog or "out of memory" in hlog.lower() or "bad_alloc" in hlog or "SIGKILL" in hlog or "std::bad_alloc" in logtxt:
                 status = "oom"
             else:
                 status = "no-result"
